@@ -179,6 +179,9 @@ func debugNames(fn *ssa.Function) map[string][]dbgRef {
 		for _, in := range b.Instrs {
 			if d, ok := in.(*ssa.DebugRef); ok {
 				if obj := d.Object(); obj != nil {
+					if v, ok := obj.(*types.Var); ok && v.IsField() {
+						continue
+					}
 					name := obj.Name()
 					if d.IsAddr {
 						name = "&" + name
@@ -452,6 +455,20 @@ func (e *Exec) loopHeader(fr *frame, li *loopInfo, b, pred *ssa.BasicBlock, st *
 			hst.locals[a] = nv.L
 		}
 	}
+	for _, pw := range ws.points {
+		bv, ok := hst.env[pw.base]
+		if !ok || len(bv.L) != 1 {
+			ws.classes[pw.cls] = true
+			continue
+		}
+		for hs, srt := range e.ctx.heapSort {
+			if strings.HasPrefix(hs, pw.cls) {
+				cur := e.heapGet(hst, hs, srt)
+				hst.heap[hs] = e.ctx.def("h", Store(cur, bv.L[0], e.ctx.fresh("havoc."+hs, elemSort(srt))))
+				hst.written[hs] = true
+			}
+		}
+	}
 	for name := range ws.classes {
 		// havoc all heap symbols of this class prefix
 		for hs, srt := range e.ctx.heapSort {
@@ -460,6 +477,30 @@ func (e *Exec) loopHeader(fr *frame, li *loopInfo, b, pred *ssa.BasicBlock, st *
 			}
 		}
 		e.markHavoc(hst, name)
+	}
+	// range-over-map loops: the visited set is loop state; it stays inside the map's domain
+	for blk := range li.body {
+		for _, in := range blk.Instrs {
+			nx, ok := in.(*ssa.Next)
+			if !ok || nx.IsString {
+				continue
+			}
+			rng, ok := nx.Iter.(*ssa.Range)
+			if !ok || li.body[rng.Block()] {
+				continue
+			}
+			mt, ok := rng.X.Type().Underlying().(*types.Map)
+			if !ok {
+				continue
+			}
+			ks := flatten(mt.Key())[0].Sort
+			vis := e.ctx.fresh("visited", ArrSort(ks, SBool))
+			hst.ghost["visited:"+rng.Name()] = vis
+			if mv, ok := hst.env[rng]; ok {
+				dom := e.mapDom(hst, mt, mv.L[0])
+				hst.pc = append(hst.pc, Term{fmt.Sprintf("(forall ((k!v %s)) (=> (select %s k!v) (and (not (= %s 0)) (select %s k!v))))", ks, vis.S, mv.L[0].S, dom.S), SBool})
+			}
+		}
 	}
 	if ws.alloc {
 		na := e.ctx.fresh("alloc", SInt)
@@ -485,7 +526,14 @@ func (e *Exec) loopHeader(fr *frame, li *loopInfo, b, pred *ssa.BasicBlock, st *
 	e.execInstrs(fr, b, firstNonPhi(b), hst)
 }
 
+type pointWrite struct {
+	base ssa.Value
+	cls  string // heap symbol prefix (class + field path)
+}
+
 type writeSet struct {
+	points  []pointWrite
+	broad   map[string]bool // class prefixes written other than through point writes
 	locals  map[*ssa.Alloc]bool
 	classes map[string]bool
 	alloc   bool
@@ -495,12 +543,41 @@ type writeSet struct {
 
 // writeSet computes (an over-approximation of) the heap classes a loop writes.
 func (e *Exec) writeSet(fr *frame, li *loopInfo) writeSet {
-	ws := writeSet{classes: map[string]bool{}, locals: map[*ssa.Alloc]bool{}}
+	ws := writeSet{classes: map[string]bool{}, locals: map[*ssa.Alloc]bool{}, broad: map[string]bool{}}
 	for b := range li.body {
 		for _, in := range b.Instrs {
-			e.instrWrites(in, &ws)
+			if st, ok := in.(*ssa.Store); ok {
+				if base, cls, ok := pointBase(st.Addr); ok && !li.body[base.(ssa.Instruction).Block()] {
+					ws.points = append(ws.points, pointWrite{base, cls})
+					continue
+				}
+			}
+			before := len(ws.classes)
+			_ = before
+			tmp := writeSet{classes: map[string]bool{}, locals: ws.locals, broad: map[string]bool{}}
+			e.instrWrites(in, &tmp)
+			for c := range tmp.classes {
+				ws.classes[c] = true
+			}
+			if tmp.alloc {
+				ws.alloc = true
+			}
 		}
 	}
+	// a point write is only useful if nothing else in the loop writes the same class
+	var keep []pointWrite
+	for _, pw := range ws.points {
+		covered := false
+		for c := range ws.classes {
+			if strings.HasPrefix(pw.cls, c) || strings.HasPrefix(c, pw.cls) {
+				covered = true
+			}
+		}
+		if !covered {
+			keep = append(keep, pw)
+		}
+	}
+	ws.points = keep
 	return ws
 }
 
@@ -599,6 +676,41 @@ func (e *Exec) addrClasses(a ssa.Value, ws *writeSet) {
 	}
 }
 
+// pointBase: a store through p or &p.f... where p is an instruction-defined pointer value; returns p
+// and the heap symbol prefix written.
+func pointBase(addr ssa.Value) (ssa.Value, string, bool) {
+	path := ""
+	v := addr
+	for {
+		fa, ok := v.(*ssa.FieldAddr)
+		if !ok {
+			break
+		}
+		st := fa.X.Type().Underlying().(*types.Pointer).Elem()
+		path = "." + st.Underlying().(*types.Struct).Field(fa.Field).Name() + path
+		v = fa.X
+	}
+	if _, ok := v.(ssa.Instruction); !ok {
+		return nil, "", false
+	}
+	if _, isAlloc := v.(*ssa.Alloc); !isAlloc {
+		if _, isCall := v.(*ssa.Call); !isCall {
+			return nil, "", false
+		}
+	}
+	pt, ok := v.Type().Underlying().(*types.Pointer)
+	if !ok {
+		return nil, "", false
+	}
+	if _, isArr := pt.Elem().Underlying().(*types.Array); isArr {
+		return nil, "", false
+	}
+	if localRoot(addr) != nil {
+		return nil, "", false
+	}
+	return v, "H:" + typeKey(pt.Elem()) + "#" + path, true
+}
+
 // localRoot returns the non-escaping local an address is rooted at, if any.
 func localRoot(v ssa.Value) *ssa.Alloc {
 	for {
@@ -646,10 +758,16 @@ func (e *Exec) loopVars(fr *frame, li *loopInfo, st *State) map[string]SV {
 			vars[name] = sv
 		}
 	}
-	// range-over-map iterator state
-	for k, g := range st.ghost {
-		if strings.HasPrefix(k, "visited:") {
-			_ = g
+	// range-over-map iterator state: `visited` is the set of keys already produced
+	for blk := range li.body {
+		for _, in := range blk.Instrs {
+			if nx, ok := in.(*ssa.Next); ok {
+				if rng, ok := nx.Iter.(*ssa.Range); ok && !li.body[rng.Block()] {
+					if g, ok := st.ghost["visited:"+rng.Name()]; ok {
+						vars["visited"] = SV{L: []Term{g}}
+					}
+				}
+			}
 		}
 	}
 	return vars
@@ -658,7 +776,20 @@ func (e *Exec) loopVars(fr *frame, li *loopInfo, st *State) map[string]SV {
 // scopeVars: parameters, free variables and debug-named locals bound on this path.
 func (e *Exec) scopeVars(fr *frame, st *State, li *loopInfo) map[string]SV {
 	vars := map[string]SV{}
-	for name, refs := range fr.names {
+	var dnames []string
+	for name := range fr.names {
+		dnames = append(dnames, name)
+	}
+	// address-taken variables ("&x": current content of the cell) override value references
+	sort.Slice(dnames, func(i, j int) bool {
+		ai, aj := strings.HasPrefix(dnames[i], "&"), strings.HasPrefix(dnames[j], "&")
+		if ai != aj {
+			return !ai
+		}
+		return dnames[i] < dnames[j]
+	})
+	for _, name := range dnames {
+		refs := fr.names[name]
 		v, ok := pickDebug(refs, st, li)
 		if !ok {
 			continue
@@ -673,6 +804,28 @@ func (e *Exec) scopeVars(fr *frame, st *State, li *loopInfo) map[string]SV {
 		}
 		if sv, ok := st.env[v]; ok {
 			vars[name] = sv
+		}
+	}
+	// variables that live in memory (address taken, captured by closures): current content of the cell
+	for _, b := range fr.fn.Blocks {
+		for _, in := range b.Instrs {
+			al, ok := in.(*ssa.Alloc)
+			if !ok || al.Comment == "" || al.Comment == "complit" || al.Comment == "varargs" || al.Comment == "slicelit" {
+				continue
+			}
+			if _, isArr := al.Type().(*types.Pointer).Elem().Underlying().(*types.Array); isArr {
+				continue
+			}
+			if sv, ok := st.env[al]; ok {
+				if a := e.addrOf(st, sv, nil, "", nil); a != nil {
+					if a.Kind == ALocal {
+						if _, ok := st.locals[al]; !ok {
+							continue
+						}
+					}
+					vars[al.Comment] = e.load(st, a)
+				}
+			}
 		}
 	}
 	for _, p := range fr.fn.Params {
